@@ -480,6 +480,8 @@ def compare_run(model, impl):
     """model: list of int lists [head, final, line1, ...] from Coq; impl: enc_go_run output.
     Returns None when they agree, else a short description."""
     if "abnormal" in impl:
+        if model[0][0] == 8 and model[0][1] < 900 and impl["abnormal"] == "crash":
+            return None        # the model predicts this Go panic (property C10 reports it)
         return "implementation %s" % impl["abnormal"]
     mhead, mlines = model[0], model[2:]
     ihead, ilines = impl["head"], impl["display"]
